@@ -28,6 +28,28 @@ ROUTINES = {
 }
 
 _SIMS = {}
+_BIND = {}
+POISON = 0xBAD0000
+USE_GLUE = os.environ.get("VERIF_ARM_GLUE", "1") != "0"
+
+
+GLUE_NU = "GLUE-NOT-UNDERSTOOD: "
+
+
+class GlueNotUnderstood(Exception):
+    pass
+
+
+def binding(arch, routine):
+    if not USE_GLUE:
+        return None
+    if arch not in _BIND:
+        from . import glue
+        _BIND[arch] = glue.bindings(arch)
+    b = _BIND[arch]
+    if "*" in b:
+        raise SimError(b["*"]["error"])
+    return b[routine]
 
 
 def sim(arch):
@@ -100,28 +122,48 @@ def execute(arch, routine, a, b, alias, movflags=False):
         mem.add(OUT, b"\xCD" * outlen, True, "out")
     mem.add(P, q.to_bytes(48, "little"), False, "p")
     mem.add(STACK_TOP - 4096, b"\xEE" * 4096, True, "stack")
-    if arch == "aarch64":
-        above = b"\xDD" * 64
-    else:
-        above = INV32.to_bytes(4, "little") + b"\xDD" * 60       # fifth argument of fpbase_384_multiply at [sp]
-    mem.add(STACK_TOP, above, False, "caller-frame")
-    label = PFX[arch] + routine
+    above = b"\xDD" * 64            # ARMv6-M: the fifth argument (inv_word of fpbase_384_multiply) is placed at [sp] below
     inv = INV64 if arch == "aarch64" else INV32
+    # the member's own operands, in the order of its signature (this, a[, b], p, inv_word)
     if routine in ("bigint_384_add", "bigint_384_subtract", "bigint_768_multiply"):
-        args = [out_addr, a_addr, b_addr]
+        margs = [out_addr, a_addr, b_addr]
     elif routine in ("bigint_384_multiply2", "bigint_768_square"):
-        args = [out_addr, a_addr]
+        margs = [out_addr, a_addr]
     elif routine == "fpbase_384_multiply":
-        args = [out_addr, a_addr, b_addr, P] + ([inv] if arch == "aarch64" else [])
+        margs = [out_addr, a_addr, b_addr, P, inv]
     elif routine == "fpbase_384_square":
-        args = [out_addr, a_addr, P, inv]
+        margs = [out_addr, a_addr, P, inv]
     else:
-        args = [out_addr, T, P, inv]
+        margs = [out_addr, T, P, inv]
+    # what the C++ glue (include/core/arch/*, compiled for the target) really calls, and with which arguments
+    bnd = binding(arch, routine)
+    if bnd is None:
+        label, args = PFX[arch] + routine, list(margs)
+    else:
+        if bnd["error"]:
+            raise GlueNotUnderstood(bnd["error"])
+        label = bnd["callee"]
+        args = []
+        for v in bnd["args"]:
+            if v[0] == "arg" and v[1] < len(margs):
+                args.append((margs[v[1]] + v[2]) & (2**64 - 1))
+            elif v[0] == "const":
+                args.append(v[1] & (2**64 - 1))
+            else:
+                args.append(POISON)          # the routine receives a register the glue never set: any use as a pointer faults
+        if bnd["has_ret"] and bnd["ret"] != ("ret",):
+            raise SimError("glue: the member does not return the routine's result (%s)" % (bnd["ret"],))
+    nreg = 8 if arch == "aarch64" else 4
+    if arch != "aarch64":
+        above = (args[4] & 0xFFFFFFFF).to_bytes(4, "little") + b"\xDD" * 60 if len(args) > 4 else above
+    mem.add(STACK_TOP, above, False, "caller-frame")
+    if label not in s.prog.labels:
+        raise SimError("glue: the member calls %s, which the assembly sources do not define" % label)
     if arch == "aarch64":
-        regs, steps = s.run(label, args, mem, STACK_TOP)
+        regs, steps = s.run(label, args[:nreg], mem, STACK_TOP)
         ret = regs[0]
     else:
-        regs, steps = s.run(label, args, None, mem, STACK_TOP, mov_sets_flags=movflags)
+        regs, steps = s.run(label, args[:nreg], None, mem, STACK_TOP, mov_sets_flags=movflags)
         ret = regs[0]
     name = {OUT: "out", A: "a", B: "b"}[out_addr]
     val = int.from_bytes(mem.get(name)[:outlen], "little")
@@ -138,6 +180,17 @@ def execute(arch, routine, a, b, alias, movflags=False):
     return val, ret, steps
 
 
+def glue_summary():
+    """(number of member bindings traced, informational messages about non-identity bindings)"""
+    from . import glue
+    n, msgs = 0, []
+    for arch in ("aarch64", "armv6m"):
+        k, m = glue.audit(arch)
+        n += k
+        msgs += m
+    return n, msgs
+
+
 def eval_case(case):
     arch, routine = case["arch"], case["routine"]
     a = int(case["a"], 16)
@@ -152,6 +205,8 @@ def eval_case(case):
     for mf in modes:
         try:
             val, ret, steps = execute(arch, routine, a, b, alias, mf)
+        except GlueNotUnderstood as e:
+            return [GLUE_NU + str(e)]
         except SimError as e:
             msgs.append("%s %s [%s]: %s" % (arch, routine, alias, e))
             continue
@@ -220,6 +275,11 @@ def run_shard(ctx, shard):
         if ctx.out_of_time():
             return
         msgs = eval_case(case)
+        if msgs and msgs[0].startswith(GLUE_NU):
+            # the compiled glue has a shape the symbolic tracker cannot follow: a limitation of the harness, never a verdict
+            ctx.ok(False, "arm:glue-not-understood")
+            ctx.notes.append("%s %s: %s" % (arch, routine, msgs[0]))
+            return
         a = int(case["a"], 16)
         ctx.ok(a > 1, "arm:%s:%s" % (arch, routine))
         ctx.sample(case, limit=1)
